@@ -182,6 +182,12 @@ func vSchedRunOnce(sc *vScenario, prefix []int, keepLog bool) *vRunResult {
 		os.Exit(3)
 	}
 	if s.Diverged != "" {
+		if vSchedReplaying {
+			// replaying a recorded schedule on a tree that behaves differently (e.g. the
+			// defect was repaired): the schedule no longer fits => not reproduced
+			fmt.Println("schedule does not fit this tree any more:", s.Diverged)
+			return &vRunResult{trace: s.Trace, log: s.Log}
+		}
 		fmt.Fprintln(os.Stderr, "HARNESS-DIVERGENCE:", sc.Name, s.Diverged)
 		os.Exit(3)
 	}
@@ -361,7 +367,14 @@ func vSchedShards(prop, tier string) []vShard {
 	return sh
 }
 
+var vSchedReplaying bool
+
 func vSchedReplay(c *vCtx, v *vViolation) bool {
+	vSchedReplaying = true
+	if strings.HasPrefix(v.Config, "racepass ") {
+		fmt.Println("a race-pass finding is replayed by re-running the check (free-running executions are not schedule-replayable)")
+		return false
+	}
 	for _, sc := range vScenarios {
 		if len(v.History) == 0 || sc.Name != v.History[0] {
 			continue
